@@ -54,6 +54,7 @@ pub struct CtxInner {
     pub sim_ns: u64,
     pub hasher: u64,
     pub keep_history: bool,
+    pub frozen: bool,
 }
 
 /// Per-run recorder shared by the harness actors of one run.
@@ -74,6 +75,9 @@ impl Ctx {
     /// Appends an observable event to the history (global sequence = index).
     pub fn ev(&self, s: impl AsRef<str>) -> usize {
         let mut g = self.0.lock().unwrap();
+        if g.frozen {
+            return g.history.len();
+        }
         let s = s.as_ref();
         let mut h = g.hasher;
         for b in s.as_bytes() {
@@ -88,6 +92,13 @@ impl Ctx {
             g.history.push(s.to_string());
         }
         idx
+    }
+
+    /// While frozen, events are not recorded. Used around runtime teardown: tokio drops the
+    /// remaining tasks in an order that depends on process-global task ids, so anything their
+    /// destructors report is not part of the (deterministic) simulated history.
+    pub fn freeze(&self, on: bool) {
+        self.0.lock().unwrap().frozen = on;
     }
 
     pub fn count(&self, name: &str) {
